@@ -83,14 +83,33 @@ pub struct Arena {
     st: UnsafeCell<State>,
 }
 
+#[derive(Clone, Copy)]
+pub struct StRef(*mut State);
+
+impl core::ops::Deref for StRef {
+    type Target = State;
+    #[inline]
+    fn deref(&self) -> &State {
+        unsafe { &*self.0 }
+    }
+}
+impl core::ops::DerefMut for StRef {
+    #[inline]
+    fn deref_mut(&mut self) -> &mut State {
+        unsafe { &mut *self.0 }
+    }
+}
+
 fn layout() -> Layout {
     Layout::from_size_align(FRAME, FRAME).unwrap()
 }
 
 impl Arena {
+    /// handle to the state: every field access / method call through it creates a reference that lives only for that
+    /// expression, so monitors, allocator callbacks and the frame mapping never hold overlapping `&mut State`
     #[inline]
-    pub fn st(&self) -> &mut State {
-        unsafe { &mut *self.st.get() }
+    pub fn st(&self) -> StRef {
+        StRef(self.st.get())
     }
 
     /// `phys`: distinct 4 KiB-aligned physical addresses; `contiguous`: one block (needed for OffsetPageTable)
@@ -182,7 +201,7 @@ impl Arena {
                 memfd: fd,
             }),
         };
-        let s = a.st();
+        let mut s = a.st();
         for i in 0..n {
             if i == 0 {
                 s.fill(i, 0);
@@ -330,7 +349,7 @@ pub struct ArenaAlloc {
 
 unsafe impl FrameAllocator<Size4KiB> for ArenaAlloc {
     fn allocate_frame(&mut self) -> Option<PhysFrame<Size4KiB>> {
-        let s = unsafe { &*self.arena }.st();
+        let mut s = unsafe { &*self.arena }.st();
         s.requests_this_call += 1;
         let fail = match s.fail_at {
             Some(k) => s.requests_this_call == k || (s.fail_all && s.requests_this_call >= k),
@@ -359,11 +378,11 @@ unsafe impl FrameAllocator<Size4KiB> for ArenaAlloc {
 
 impl FrameDeallocator<Size4KiB> for ArenaAlloc {
     unsafe fn deallocate_frame(&mut self, frame: PhysFrame<Size4KiB>) {
-        let s = unsafe { &*self.arena }.st();
+        let mut s = unsafe { &*self.arena }.st();
         let p = frame.start_address().as_u64();
         s.log.push(AllocEvent { frame: Some(p), dealloc: true });
         if let Some(h) = s.dealloc_hook {
-            h(s, p);
+            h(&mut s, p);
         }
         match s.frame_index(p) {
             Some(i) if s.role[i] == Role::Allocated => {
@@ -401,7 +420,7 @@ pub struct ArenaMapping {
 
 unsafe impl PageTableFrameMapping for ArenaMapping {
     fn frame_to_pointer(&self, frame: PhysFrame) -> *mut PageTable {
-        let s = unsafe { &*self.arena }.st();
+        let mut s = unsafe { &*self.arena }.st();
         let p = frame.start_address().as_u64();
         s.f2p_total += 1;
         match s.frame_index(p) {
